@@ -8,7 +8,7 @@ CONSTANTS
   Ascending = FALSE
   OffByOne = FALSE
   AcceptUnterminated = FALSE
-  Emit = TRUE
+  Emit = FALSE
 SPECIFICATION Spec
 INVARIANT TypeOK
 INVARIANT SequentiallyValid
@@ -16,6 +16,4 @@ INVARIANT ImplEqualsEd
 INVARIANT TargetReached
 INVARIANT StructureConsistent
 INVARIANT CorruptRaises
-INVARIANT EmitCase
-INVARIANT EmitCorrupt
 CHECK_DEADLOCK FALSE
